@@ -17,17 +17,20 @@ git -C /repo diff --quiet || { echo "/repo is dirty"; exit 2; }
 git -C /repo apply "$DST/patch.diff" || exit 2
 DETECT=""
 EXPECT=""
+EXPMAP=""
 for Q in $P "$@"; do
   OUT=$(./bin/jetverif -prop $Q -tier quick -repo /repo -out /tmp/vout -findings /verif/known_findings.json 2>&1); RC=$?
   KEYS=$(echo "$OUT" | grep -o 'key=[^ ]*' | sed 's/key=//' | tr '\n' ' ')
   echo "  check $Q rc=$RC keys: $KEYS"
-  if [ "$Q" = "$P" ] && [ $RC -eq 1 ] && [ -z "$EXPECT" ]; then EXPECT=$(echo "$KEYS" | awk '{print $1}' | cut -d/ -f1); fi
+  R=""; if [ $RC -eq 1 ]; then R=$(echo "$KEYS" | awk '{print $1}' | cut -d/ -f1); fi
+  if [ "$Q" = "$P" ] && [ -z "$EXPECT" ]; then EXPECT=$R; fi
+  EXPMAP="$EXPMAP\"$Q\":\"$R\","
   DETECT="$DETECT{\"check\":\"$Q\",\"exit\":$RC,\"violated_keys\":\"$KEYS\"},"
 done
 git -C /repo checkout -- .
-python3 - "$P" "$K" "$TARGET" "$DST" "[${DETECT%,}]" "$VER" "$EXPECT" <<'PY'
+python3 - "$P" "$K" "$TARGET" "$DST" "[${DETECT%,}]" "$VER" "$EXPECT" "{${EXPMAP%,}}" <<'PY'
 import json,sys,re
-p,k,target,dst,det,ver,expect=sys.argv[1:8]
+p,k,target,dst,det,ver,expect,expmap=sys.argv[1:9]
 notes=open(dst+'/notes.md').read() if True else ''
 meta={"property":p,"seed":int(k),"origin":"independent sub-agent given only the property text and a scratch worktree (no access to /verif)",
  "demo_location":target,
@@ -36,6 +39,7 @@ meta={"property":p,"seed":int(k),"origin":"independent sub-agent given only the 
  "verification_output":[l for l in ver.splitlines() if l.startswith(('RESULT','CONFIRMED'))],
  "checks_run":json.loads(det),
  "expect_rule":expect,
+ "expect_by_property":json.loads(expmap),
  "expect_rule_note":"rule (obligation-key prefix) of this property's check that reports the change; the thorough tier re-applies patch.diff in memory on every run and requires it. Empty = not detected by the property's own rules (see DESIGN.md, seeded changes)"}
 json.dump(meta,open(dst+'/meta.json','w'),indent=1)
 PY
